@@ -232,7 +232,7 @@ CHECKS["C03"] = dict(
           "negative strides and fenced buffers: request rectangle inside/straddling/outside, zero and huge sizes, 16-bit extremes; "
           "dest clip of 1-6 boxes; dest alpha map with arbitrary origin; source and mask clips in all four (has_client_clip, "
           "source_clipping) combinations placed to overlap in destination space; operators biased to those that change every pixel; "
-          "entry points composite32, the 16-bit composite, and pixman_compute_composite_region. Oracle: R = request ∩ bounds ∩ dest "
+          "entry points composite32, the 16-bit composite, pixman_compute_composite_region, fill_boxes/fill_rectangles (C19's oracle), composite_glyphs(_no_mask) (C17's oracle) and the trapezoid entry points (C12's harness on fenced canvases); clip regions include set-but-empty ones. Oracle: R = request ∩ bounds ∩ dest "
           "clip ∩ alpha-map bounds ∩ enabled source/mask clips (translated), computed by the independent region model; every bit "
           "of the destination storage and of the alpha map outside R is unchanged (sub-byte neighbours, padding); "
           "compute_composite_region returns TRUE iff R non-empty and exactly R in canonical form; SRC with an opaque solid sets "
@@ -244,6 +244,10 @@ CHECKS["C03"] = dict(
         # trapezoid entry points: the C12 harness checks every pixel against the sample-count model (so nothing outside the
         # shape changes), row padding, and runs on exactly sized buffers fenced by PROT_NONE pages
         dict(harness="traps", prop="traps", cases=T(15000, 200000), procs=T(3, 4), tag="c03_traps", tolerate=["S15", "S17"]),
+        # fill_boxes / fill_rectangles (every bit outside boxes ∩ bounds ∩ clip unchanged; the direct-fill shortcut) and the
+        # glyph entry points (bit-identical to per-glyph compositing on clipped destinations): the oracles of C19 / C17
+        dict(harness="touch", prop="fill", cases=T(8000, 100000), procs=T(2, 3), tag="c03_fill"),
+        dict(harness="glyphs", prop="draw", cases=T(3000, 50000), procs=T(2, 3), tag="c03_glyphs", tolerate=["S20"]),
     ],
     floor=T(100000, 2000000), nt_floor=T(30000, 500000),
     assumptions=["clips are not put on alpha-map images (the statement does not enumerate them)",
@@ -288,6 +292,10 @@ CHECKS["C04"] = dict(
         dict(harness="fz_oob", prop="oob", kind="fuzz", cases=T(40000, 2000000), procs=T(3, 4), max_len=600),
         dict(harness="traps", prop="traps", cases=T(10000, 150000), procs=T(1, 2), tag="c04_traps", tolerate=["S15", "S17"]),
         dict(harness="traps_asan", prop="traps", cases=T(4000, 60000), procs=T(1, 2), tag="c04_traps_asan", tolerate=["S15", "S17"]),
+        # pixman_image_fill_boxes / fill_rectangles and the pixman_fill shortcut behind them (C19's oracle, on fenced and
+        # ASan-guarded destinations)
+        dict(harness="touch", prop="fill", cases=T(8000, 100000), procs=T(2, 3), tag="c04_fill"),
+        dict(harness="touch_asan", prop="fill", cases=T(3000, 40000), procs=T(1, 2), tag="c04_fill_asan"),
     ],
     floor=T(100000, 2000000), nt_floor=T(30000, 500000),
     assumptions=["images are described truthfully (stride >= row bytes, storage valid for height rows, YV12 planes laid out as the library documents)",
